@@ -146,34 +146,24 @@ class Path:
         todo = [(t, pol) for t, pol, _ in self.conds]
         while todo:
             t, pol = todo.pop(0)
-            while isinstance(t, tuple) and t[0] == "unop" and t[1] == "not":
-                t, pol = t[2], not pol
+            t, neg = self._norm_atom(t)
+            if neg:
+                pol = not pol
             if isinstance(t, tuple) and t[0] == "boolop":
                 # (a or b) false => a false, b false ; (a and b) true => a true, b true
                 if (t[1] == "or" and not pol) or (t[1] == "and" and pol):
                     todo = [(x, pol) for x in t[2]] + todo
                     out.append((t, pol))
                     continue
-            if isinstance(t, tuple) and t[0] == "compare" and len(t[1]) == 1:
-                op = t[1][0]
-                flip = {"is not": "is", "!=": "==", "not in": "in"}
-                if op in flip:
-                    t, pol = ("compare", (flip[op],), t[2]), not pol
             out.append((t, pol))
         return out
 
     def truth(self, term):
         """Truth value the path conditions assign to `term` (None if undecided)."""
-        while isinstance(term, tuple) and term[0] == "unop" and term[1] == "not":
-            v = self.truth(term[2])
-            return None if v is None else not v
-        if isinstance(term, tuple) and term[0] == "compare" and len(term[1]) == 1 and term[1][0] in ("is not", "!=", "not in"):
-            flip = {"is not": "is", "!=": "==", "not in": "in"}
-            v = self.truth(("compare", (flip[term[1][0]],), term[2]))
-            return None if v is None else not v
+        term, neg = self._norm_atom(term)
         for t, pol in self.atoms():
             if t == term:
-                return pol
+                return (not pol) if neg else pol
         return None
 
     def feasible(self):
@@ -221,6 +211,9 @@ class Path:
         if isinstance(t, tuple) and t[0] == "compare" and len(t[1]) == 1 and t[1][0] in ("is not", "!=", "not in"):
             flip = {"is not": "is", "!=": "==", "not in": "in"}
             t, neg = ("compare", (flip[t[1][0]],), t[2]), not neg
+        # a regex match object is always truthy: `if m:` is `if m is not None:`
+        if isinstance(t, tuple) and t[0] == "call" and t[1][0] == "attr" and t[1][2] in ("search", "match", "fullmatch"):
+            t, neg = ("compare", ("is",), (t, ("const", None))), not neg
         return t, neg
 
     @classmethod
@@ -776,23 +769,80 @@ class Evaluator:
             info.accumulates = getattr(info, "accumulates", {})
             info.accumulates[name] = comp
 
+    def _const_table_elements(self, node):
+        """AST elements (and defining module) of a module-level constant tuple/list display named by `node`."""
+        if not isinstance(node, ast.Name) or node.id in self.locals:
+            return None
+        r = self.p.resolve_module_name(self.module, node.id)
+        if not r or r[0] != "const":
+            return None
+        m, name = r[1], r[2]
+        exprs = m.assigns.get(name, ())
+        if len(exprs) != 1 or not isinstance(exprs[0], (ast.Tuple, ast.List)) or not (0 < len(exprs[0].elts) <= 24):
+            return None
+        if any(isinstance(e, ast.Starred) for e in exprs[0].elts):
+            return None
+        return m, list(exprs[0].elts)
+
     def s_For(self, st, p, loops):
+        tab = self._const_table_elements(st.iter) if not st.orelse else None
+        if tab is not None and isinstance(st.target, (ast.Tuple, ast.List)):
+            # a loop over a small module-level table of tuples is unrolled (table-driven code == if-chain)
+            defmod, elts = tab
+            live, done = [p], []
+            for el in elts:
+                nxt = []
+                for q0 in live:
+                    saved = self.module
+                    self.module = defmod
+                    try:
+                        v = self.expr(el, q0)
+                    finally:
+                        self.module = saved
+                    self.assign(st.target, v, q0, st, None)
+                    for q in self.block(list(st.body), [q0], loops):
+                        if q.result is None:
+                            nxt.append(q)
+                        elif q.result[0] == "continue":
+                            q.result = None
+                            nxt.append(q)
+                        elif q.result[0] == "break":
+                            q.result = None
+                            done.append(q)
+                        else:
+                            done.append(q)
+                live = nxt
+                if len(live) + len(done) > MAX_PATHS:
+                    raise AnalysisError("path explosion unrolling a table loop in %s" % self.fn.qualname)
+            return live + done
         if isinstance(st.iter, (ast.Constant, ast.Tuple, ast.List)) and not st.orelse:
             elems = None
             if isinstance(st.iter, ast.Constant) and isinstance(st.iter.value, str) and 0 < len(st.iter.value) <= 4:
                 elems = [ast.Constant(value=c) for c in st.iter.value]
             elif isinstance(st.iter, (ast.Tuple, ast.List)) and 0 < len(st.iter.elts) <= 4 and not any(isinstance(e, ast.Starred) for e in st.iter.elts):
                 elems = list(st.iter.elts)
-            has_jump = any(isinstance(n, (ast.Break, ast.Continue)) for b in st.body for n in ast.walk(b))
-            if elems is not None and not has_jump:
-                # `for bit in "01": body`  ==  body[bit="0"]; body[bit="1"]
-                paths = [p]
+            if elems is not None:
+                # `for bit in "01": body`  ==  body[bit="0"]; body[bit="1"]   (continue ends an iteration, break ends the loop)
+                live = [p]
+                done = []
                 for c in elems:
                     asg = ast.Assign(targets=[st.target], value=c)
                     ast.copy_location(asg, st)
                     ast.fix_missing_locations(asg)
-                    paths = self.block([asg] + list(st.body), paths, loops)
-                return paths
+                    nxt = []
+                    for q in self.block([asg] + list(st.body), live, loops):
+                        if q.result is None:
+                            nxt.append(q)
+                        elif q.result[0] == "continue":
+                            q.result = None
+                            nxt.append(q)
+                        elif q.result[0] == "break":
+                            q.result = None
+                            done.append(q)
+                        else:
+                            done.append(q)
+                    live = nxt
+                return live + done
         return self._loop(st, p, loops, "for")
 
     s_AsyncFor = s_For
@@ -931,6 +981,9 @@ class Evaluator:
                     r2 = self.p.resolve_module_name(rb[1], node.attr)
                     if r2 is not None:
                         return canonical_global(self.p, rb[1], node.attr, r2)
+            cc = self._class_scalar(b, node.attr)
+            if cc is not None:
+                return cc
             return ("attr", b, self.p.rename_map.get(node.attr, node.attr) if b[0] in ("param", "global", "attr", "call") and node.attr in self.p.rename_map and self._is_method_name(node.attr) else node.attr)
         if isinstance(node, ast.Call):
             f = ev(node.func)
@@ -947,6 +1000,10 @@ class Evaluator:
             if callee is not None and not any(a[0] == "star" for a in args) and not any(k is None for k, _ in kwargs):
                 args, kwargs = canonical_args(callee[0], callee[1], args, kwargs)
             t = ("call", f, tuple(args), tuple(kwargs))
+            if f[0] == "attr" and f[2] == "format" and f[1][0] == "const" and isinstance(f[1][1], str) and not any(a[0] == "star" for a in args) and not any(k is None for k, _ in kwargs):
+                fs = format_call_as_fstr(f[1][1], list(args), list(kwargs))
+                if fs is not None:
+                    return fs
             p.effects.append(Effect("call", t, node=node, maybe=maybe))
             if callee is not None and self.inlinable(callee[0]):
                 stats = _INLINE_STATS.setdefault(id(self.p), {"ok": set(), "fail": set()})
@@ -964,6 +1021,10 @@ class Evaluator:
         if isinstance(node, ast.BinOp):
             l = ev(node.left)
             r = ev(node.right)
+            if isinstance(node.op, ast.Mod) and l[0] == "const" and isinstance(l[1], str):
+                fs = percent_as_fstr(l[1], r)
+                if fs is not None:
+                    return fs
             return ("binop", _BINOPS.get(type(node.op), "?"), l, r)
         if isinstance(node, ast.UnaryOp):
             return ("unop", _UNOPS[type(node.op)], ev(node.operand))
@@ -1000,8 +1061,15 @@ class Evaluator:
                 if isinstance(v, ast.Constant):
                     parts.append(("const", v.value))
                 else:
-                    parts.append(("fmt", ev(v.value), v.conversion, ev(v.format_spec) if v.format_spec is not None else None))
-            return ("fstr", tuple(parts))
+                    spec = None
+                    if v.format_spec is not None:
+                        spec = ev(v.format_spec)
+                        if spec[0] == "fstr" and len(spec[1]) == 1 and spec[1][0][0] == "const":
+                            spec = spec[1][0]
+                        elif spec == ("fstr", ()):
+                            spec = None
+                    parts.append(("fmt", ev(v.value), chr(v.conversion) if v.conversion and v.conversion > 0 else None, spec))
+            return _merge_parts(parts)
         if isinstance(node, ast.FormattedValue):
             return ("fmt", ev(node.value), node.conversion, None)
         if isinstance(node, ast.Lambda):
@@ -1055,6 +1123,30 @@ class Evaluator:
     def _elts(self, elts, p, maybe):
         return [self.expr(e, p, maybe) for e in elts]
 
+    def _class_scalar(self, b, attr):
+        cls = None
+        if b[0] == "param" and self.fn.cls is not None and self.fn.params and b[1] == self.fn.params[0] and not self.fn.is_staticmethod and not self.inline_stack:
+            cls = self.fn.cls
+        elif b[0] == "global" and b[1] in self.p.modules:
+            r = self.p.resolve_module_name(self.p.modules[b[1]], b[2])
+            if r and r[0] == "class":
+                cls = r[1]
+        if cls is None:
+            return None
+        if any("Enum" in unparse(b) or "Flag" in unparse(b) for c in cls.mro() for b in c.base_exprs):
+            return None  # members of an Enum are not their values
+        owner, expr = cls.find_assign(attr)
+        if owner is None or any(attr in sc.assigns for sc in self.p.subclasses(cls)):
+            return None
+        from .fold import Unfoldable
+        try:
+            v = _folder_of(self.p).class_const(owner, attr)
+        except Unfoldable:
+            return None
+        if isinstance(v, _SCALARS) and (not isinstance(v, str) or len(v) <= 400):
+            return ("const", v)
+        return None
+
     def _is_method_name(self, attr):
         old = self.p.rename_map.get(attr)
         return any(old in c.methods and getattr(c.methods[old], "renamed_from", None) == attr for c in self.p.classes.values()) or any(old in m.functions and getattr(m.functions[old], "renamed_from", None) == attr for m in self.p.modules.values())
@@ -1081,6 +1173,13 @@ class Evaluator:
                     m = r[1].find_method(f[2])
                     if m is not None and not any(f[2] in sc.methods for sc in prog.subclasses(r[1])):
                         return m, (1 if m.is_classmethod else 0)
+                return None
+            if b[0] == "call" and b[1][0] == "global" and b[1][1] in prog.modules:
+                r = prog.resolve_module_name(prog.modules[b[1][1]], b[1][2])
+                if r and r[0] == "class":
+                    m = r[1].find_method(f[2])
+                    if m is not None and not m.is_abstract and not m.is_staticmethod and not m.is_classmethod and not prog.subclasses(r[1]):
+                        return m, 1
                 return None
             if b[0] == "param" and self.fn.cls is not None and self.fn.params and b[1] == self.fn.params[0] and not self.fn.is_staticmethod and not self.inline_stack:
                 m = self.fn.cls.find_method(f[2])
@@ -1251,6 +1350,83 @@ def split_ifexp(st):
     return node
 
 
+def _merge_parts(parts):
+    out = []
+    for x in parts:
+        if x[0] == "const" and isinstance(x[1], str):
+            if x[1] == "":
+                continue
+            if out and out[-1][0] == "const":
+                out[-1] = ("const", out[-1][1] + x[1])
+                continue
+        out.append(x)
+    return ("fstr", tuple(out))
+
+
+def format_call_as_fstr(fmt, args, kwargs):
+    """'..{}..'.format(a, b) as the equivalent f-string term; None if the template uses features we do not model."""
+    import string as _string
+    parts = []
+    auto = 0
+    kw = dict(kwargs)
+    try:
+        fields = list(_string.Formatter().parse(fmt))
+    except ValueError:
+        return None
+    for lit, name, spec, conv in fields:
+        if lit:
+            parts.append(("const", lit))
+        if name is None:
+            continue
+        if name == "":
+            if auto is None:
+                return None
+            idx = auto
+            auto += 1
+            if idx >= len(args):
+                return None
+            val = args[idx]
+        elif name.isdigit():
+            auto = None if auto == 0 else auto
+            if int(name) >= len(args):
+                return None
+            val = args[int(name)]
+        elif name.isidentifier():
+            if name not in kw:
+                return None
+            val = kw[name]
+        else:
+            return None
+        if spec and ("{" in spec):
+            return None
+        parts.append(("fmt", val, conv or None, ("const", spec) if spec else None))
+    return _merge_parts(parts)
+
+
+def percent_as_fstr(fmt, right):
+    """'..%s..' % x  /  % (a, b) as the equivalent f-string term (only bare %s / %d / %r / %%)."""
+    import re as _re
+    args = list(right[1]) if right[0] == "tuple" else [right]
+    parts = []
+    pos = 0
+    i = 0
+    for m in _re.finditer(r"%(.)", fmt):
+        parts.append(("const", fmt[pos:m.start()]))
+        pos = m.end()
+        c = m.group(1)
+        if c == "%":
+            parts.append(("const", "%"))
+            continue
+        if c not in "sdr" or i >= len(args):
+            return None
+        parts.append(("fmt", args[i], {"s": None, "r": "r", "d": "d"}[c], None))
+        i += 1
+    if i != len(args):
+        return None
+    parts.append(("const", fmt[pos:]))
+    return _merge_parts(parts)
+
+
 class _NeedChoice(Exception):
     def __init__(self, k):
         self.k = k
@@ -1273,15 +1449,36 @@ ANCHORS = {
     "generate_default_sensitive_item_regexes", "anonymize_as_numbers", "get_as_number_pattern", "_generate_as_number_replacement",
     "_generate_as_number_regex", "_generate_as_number_replacement_map", "_lookup_anon_word", "_get_or_generate_sensitive_word_replacement",
     "_generate_sensitive_word_regex", "_generate_conflicting_reserved_word_list", "juniper_decrypt", "juniper_nonrandom_encrypt",
-    "_gap", "_gap_decode", "_gap_encode", "_nibble", "_fixedc", "anonymize_files", "anonymize_io", "anonymize_file", "_mkdirs",
+    "_gap", "_gap_decode", "_gap_encode", "_nibble", "_fixedc", "anonymize_files", "anonymize_io",
     "main", "_parse_args", "host_bits",
 }
 
 
+def _folder_of(prog):
+    f = getattr(prog, "_folder", None)
+    if f is None:
+        from .fold import Folder
+        f = prog._folder = Folder(prog)
+    return f
+
+
+_SCALARS = (str, int, bool, bytes, float, type(None))
+
+
 def canonical_global(prog, module, name, r):
     """Term for a module-level name: ("global", <defining package module>, <its name there>) for package
-    objects, ("global", <using module>, <local name>) for anything imported from outside the package."""
+    objects, ("global", <using module>, <local name>) for anything imported from outside the package.
+    A module-level name bound once to a scalar constant is replaced by the constant (constant propagation),
+    so hoisting a literal into a named constant changes no term."""
     k = r[0]
+    if k == "const" and len(r[1].assigns.get(r[2], ())) == 1:
+        from .fold import Unfoldable
+        try:
+            v = _folder_of(prog).module_const(r[1].name, r[2])
+            if isinstance(v, _SCALARS) and (not isinstance(v, str) or len(v) <= 400):
+                return ("const", v)
+        except Unfoldable:
+            pass
     if k == "func":
         f = r[1]
         if f.cls is None:
